@@ -165,3 +165,63 @@ example : (match processKw [.elem "amount", .choice [["card"], ["iban", "bic"], 
     | .error _ => false) = true := by decide
 
 end Zeep.BindKw
+
+namespace Zeep.BindKw
+
+theorem seqKw_keys (kw : Kw) (items : List Item) (res : Kw) (avail : List String) (k : String) :
+    k ∈ keys (seqKw kw items (res, avail)).1 → k ∈ keys res ∨ k ∈ allNames items := by
+  induction items generalizing res avail with
+  | nil => intro h; exact .inl h
+  | cons it rest ih =>
+    simp only [seqKw]
+    intro h
+    rcases ih _ _ h with h | h
+    · split at h
+      · exact .inl h
+      · rcases keys_upd _ _ k h with h | h
+        · exact .inl h
+        · exact .inr (by simp only [allNames, List.flatMap_cons, List.mem_append]; exact .inl (itemKw_keys kw avail it k h))
+    · exact .inr (by simp only [allNames, List.flatMap_cons, List.mem_append]; exact .inr (by simpa [allNames] using h))
+
+theorem attrKw_keys (kw : Kw) (attrs : List String) (res : Kw) (avail : List String) (k : String) :
+    k ∈ keys (attrKw kw attrs (res, avail)).1 → k ∈ keys res ∨ k ∈ attrs := by
+  induction attrs generalizing res avail with
+  | nil => intro h; exact .inl h
+  | cons a rest ih =>
+    by_cases hc : avail.contains a = true
+    · cases hla : kw.lookup a with
+      | none =>
+        rw [attrKw_cons_out kw a rest res avail (.inr hla)]
+        intro h; rcases ih _ _ h with h | h
+        · exact .inl h
+        · exact .inr (List.mem_cons_of_mem _ h)
+      | some va =>
+        rw [attrKw_cons_in kw a rest res avail va hc hla]
+        intro h; rcases ih _ _ h with h | h
+        · rcases keys_upd _ _ k h with h | h
+          · exact .inl h
+          · simp only [keys, List.map_cons, List.map_nil, List.mem_singleton] at h
+            exact .inr (h ▸ List.mem_cons_self)
+        · exact .inr (List.mem_cons_of_mem _ h)
+    · have hc' : avail.contains a = false := by simpa using hc
+      rw [attrKw_cons_out kw a rest res avail (.inl hc')]
+      intro h; rcases ih _ _ h with h | h
+      · exact .inl h
+      · exact .inr (List.mem_cons_of_mem _ h)
+
+/-- **C12, an accepted call binds declared names only**: every field of the value object built from an accepted keyword call is
+a member or an attribute of the signature (nothing undeclared is smuggled in, e.g. through a default) -/
+theorem c12_kw_fields_declared (items : List Item) (attrs : List String) (kw fields : Kw)
+    (hok : processKw items attrs kw = .ok fields) (k : String) (hk : k ∈ keys fields) : k ∈ allNames items ++ attrs := by
+  unfold processKw at hok
+  simp only at hok
+  split at hok
+  · cases hok
+    rcases attrKw_keys kw attrs _ _ k hk with h | h
+    · rcases seqKw_keys kw items [] (keys kw) k h with h | h
+      · exact absurd h (by simp [keys])
+      · exact List.mem_append_left _ h
+    · exact List.mem_append_right _ h
+  · cases hok
+
+end Zeep.BindKw
